@@ -117,13 +117,23 @@ def view(arr):
 
 
 class RefArray(object):
-    """Plain-numpy copy of a ParticleArray (values, strides, tags)."""
+    """Plain-numpy copy of a ParticleArray (values, strides, tags), or -
+    with live=True - a window onto a real ParticleArray of a second world
+    (re-bound after every domain update, which may resize it)."""
 
-    def __init__(self, pa):
+    def __init__(self, pa, live=False):
         self.name = pa.name
-        self.props = {p: a.get_npy_array().copy()
+        self.pa = pa if live else None
+        self.rebind(pa)
+
+    def rebind(self, pa=None):
+        pa = pa if pa is not None else self.pa
+        live = self.pa is not None
+        self.props = {p: (a.get_npy_array() if live else
+                          a.get_npy_array().copy())
                       for p, a in pa.properties.items()}
-        self.consts = {c: a.get_npy_array().copy()
+        self.consts = {c: (a.get_npy_array() if live else
+                           a.get_npy_array().copy())
                        for c, a in pa.constants.items()}
         self.stride = dict(pa.stride)
         self.n = pa.get_number_of_particles()
@@ -154,13 +164,14 @@ class RefArray(object):
 
 
 class RefEval(object):
-    def __init__(self, pas, groups, kernel, neighbours, order_hook=None):
+    def __init__(self, pas, groups, kernel, neighbours, order_hook=None,
+                 live=False):
         """pas: real ParticleArrays (copied); groups: list of Group objects
         (deep-copied so that attribute updates stay separate); neighbours:
         callable (src_index, dst_index, d_idx) -> sequence of source indices
         in the order the sums are to be taken."""
         from pysph.sph.equation import Group
-        self.arrays = [RefArray(pa) for pa in pas]
+        self.arrays = [RefArray(pa, live) for pa in pas]
         self.byname = {a.name: a for a in self.arrays}
         self.index = {a.name: k for k, a in enumerate(self.arrays)}
         self.kernel = kernel
@@ -351,6 +362,9 @@ class RefEval(object):
                     e.reduce(dst, t, dt)
         if g.update_nnps and self.update_nnps:
             self.update_nnps()
+            for a in self.arrays:
+                if a.pa is not None:
+                    a.rebind()
         if g.post:
             g.post()
 
@@ -381,6 +395,9 @@ class RefEval(object):
                         self._do_group(sg, t, dt)
                     if g.update_nnps and self.update_nnps:
                         self.update_nnps()
+                        for a in self.arrays:
+                            if a.pa is not None:
+                                a.rebind()
                     if g.post:
                         g.post()
                 else:
